@@ -219,6 +219,9 @@ def check(repo: Repo, rep: Report) -> None:
               and any(u(t) == "self._clock" for t in s.node.targets)]
     ok = bool(finals) and all(any(isinstance(x, ast.Name) and x.id in targets for x in ast.walk(s.node.value)) for s in finals)
     rep.ob("A1-advance-bounds", adv, "clock = target after the loop", ok, "advance_to does not leave the clock at the target")
+    rep.ob("A1-advance-bounds", adv, "clock = target only when the run ended normally (not in a finally)", bool(finals) and not any(s.ctx.finals for s in finals),
+           "advance_to moves the clock to the target in a `finally`: when an action raises, the clock jumps past the actions still queued "
+           "before the target; they later run at a clock beyond their due time (and a resumed advance_to to the same time returns at once)")
     sl = repo.fn(V, "VirtualTimeScheduler.sleep")
     bad = [s for s in sites(sl) if isinstance(s.node, ast.Call) and isinstance(s.node.func, ast.Attribute)
            and s.node.func.attr in ("invoke", "dequeue", "start", "advance_to")]
